@@ -189,11 +189,16 @@ def judge(ctx, cfg, route, out, x, w, bias, transpose_w=True):
     O = o.to(F64)
     fm = num.fmax(wd)
     rep = ref.abs() <= 0.98 * fm
-    bad = rep & ~torch.isfinite(O)
+    # the reference is only known up to the accumulation bound (it is the product of the *rounded* dequantized operands;
+    # under heavy cancellation the exact scale-corrected integer product may lie a few percent away): a result is demanded
+    # finite only when the reference plus that bound is representable
+    tol_fin = num.dot_bound(ref, absdot, b.abs() if b is not None else 0.0, K, wd) + 2 * num.eps(wd) * absdot
+    bad = ((ref.abs() + tol_fin) <= 0.98 * fm) & ~torch.isfinite(O)
     if bad.any():
         ctx.violation(dict(sig0, kind="nonfinite_for_representable_reference", kclass=kclass),
                       dict(cfg=cfgj(cfg), **oracles._first(bad, ref=ref)))
         return
+    rep = rep & torch.isfinite(O) | ((ref.abs() + tol_fin) <= 0.98 * fm)
     if cfg["mode"] == "exact":
         # exactness domain: every partial sum (and the pre-bias product) is an integer number of units below 2^p
         p = MANT[wd]
